@@ -149,8 +149,12 @@ CONFIG = {
                   "shards": {"quick": 2, "thorough": 8}}],
     },
     "C04": {
-        "rule": BUF_MODEL + "non-trivial = a state change placed strictly inside a cooldown window that was later followed by an eviction, or values freed by closing the slowest consumer; distinct = hash of the executed op trace.",
-        "jobs": [bufstep("C04", 24000, 800000)],
+        "rule": BUF_MODEL + "non-trivial = a state change placed strictly inside a cooldown window that was later followed by an eviction, or values freed by closing the slowest consumer; distinct = hash of the executed op trace. "
+                "Plus a real-time window probe using the verif instrumentation points: the cleanup goroutine is delayed between a pass that saw 'cooldown pending' and parking on the "
+                "cond (delay in {0, 0.5, 1.2, 2, 3} cooldowns; cooldown 1/2/4 ms; 1-3 consumers; final change = commit or close at 0.2-0.8 of the window); verdict only when the stuck state "
+                "is confirmed from the goroutine dump and a timer canary (else inconclusive); non-trivial = the hook fired with a non-zero delay and the change landed inside the window.",
+        "jobs": [bufstep("C04", 24000, 800000),
+                 {"name": "probe", "test": "TestC04Probe", "checks": {"quick": 160, "thorough": 4000}, "shards": {"quick": 8, "thorough": 16}, "shrinktime": "10s"}],
     },
     "C05": {
         "rule": BUF_MODEL + "non-trivial = a waking event (Put / cancel / Close) issued while a Get was observed blocked at quiescence; distinct = hash of the executed op trace." + WAITCOND_RULE,
